@@ -193,6 +193,16 @@ def rename_genes(model: "Model", rename_dict: Dict[str, str]) -> None:
     model.repair()
 
     for i in remove_genes:
+        # the gene it was merged with takes its place in the groups
+        merged_with = model.genes.get_by_id(rename_dict[i.id])
+        for group in model.get_associated_groups(i):
+            group.remove_members([i])
+            if context:
+                context(partial(group.add_members, [i]))
+            if merged_with not in group.members:
+                group.add_members([merged_with])
+                if context:
+                    context(partial(group.remove_members, [merged_with]))
         model.genes.remove(i)
         i._model = None
         if context:
